@@ -47,6 +47,14 @@ void c13_part_2(Reporter&, const Args&, uint64_t, Cross&);
 #define C13_CAT(a, b) C13_CAT2(a, b)
 #define C13_THIS_PART C13_CAT(c13_part_, VERIF_PART)
 
+// Stream of one (seed, case, salt): three chained splitmix64 rounds.  (verif::mix(seed, case) collides for small neighbouring
+// arguments -- mix(2, 1327) == mix(3, 1264) -- which would make the seeds share most of their cases.)
+static inline uint64_t stream_of(uint64_t seed, uint64_t ci, uint64_t salt) {
+  uint64_t x = seed;
+  x = splitmix64(x) + ci;
+  x = splitmix64(x) + salt;
+  return splitmix64(x);
+}
 static inline bool fexact_case(uint64_t ci) { return ci % 3 == 0; }
 static inline bool wide_case(uint64_t ci) { return ci % 3 == 2; }
 
@@ -574,11 +582,11 @@ void run_cma(Reporter& R, const Args& A_, uint64_t ci, Cross& cross) {
   guarded(R, key, [&] {
     if (fexact_case(ci)) {
       // identical float-valued inputs for every model type and every overload
-      Rng r(mix(mix(A_.seed, ci), 0xC13 + C::idx));
+      Rng r(stream_of(A_.seed, ci, 0xC13 + C::idx));
       run_instance<C, M, A, float>(R, A_, ci, r, rg<float>(), &cross);
       R.count(std::string("cases_all_types_float_valued|") + C::name);
     } else {
-      Rng r(mix(mix(A_.seed, ci), mix(Num<M>::idx * 3 + Num<A>::idx + 100, C::idx)));
+      Rng r(stream_of(A_.seed, ci, 1000 + (Num<M>::idx * 3 + Num<A>::idx) * 2 + C::idx));
       const Rg range = wide_case(ci) ? rg<narrower_t<M, A>>() : rg<float>();
       run_instance<C, M, A, A>(R, A_, ci, r, range, nullptr);
       R.count(std::string(wide_case(ci) ? "cases_wide_range|" : "cases_common_range|") + C::name);
@@ -670,7 +678,7 @@ static void cross_model_type(Reporter& R, const Args& A_, uint64_t ci, const Cro
 int main(int argc, char** argv) {
   Args A_ = parse_args(argc, argv);
   Reporter R(A_.out);
-  const uint64_t N = static_cast<uint64_t>(A_.n("cases", A_.thorough() ? 60000 : 1500));
+  const uint64_t N = static_cast<uint64_t>(A_.n("cases", A_.thorough() ? 80000 : 1500));
   for (uint64_t ci = 0; ci < N; ++ci) {
     if (!A_.mine(ci)) continue;
     Cross x[3];
